@@ -315,7 +315,8 @@ def ccsds_generator(
     elif isinstance(binary_data, bytes):
         read_buffer = binary_data
         total_length_bytes = len(read_buffer)
-        read_bytes_from_source = None  # No data to read, we've filled the read_buffer already
+        # No more data to read, we've filled the read_buffer already
+        read_bytes_from_source = lambda _: b""  # noqa: E731
         logger.info(f"Creating packet generator from a bytes object. Total length is {total_length_bytes} bytes")
     elif isinstance(binary_data, io.TextIOWrapper):
         raise OSError("Packet data file opened in TextIO mode. You must open packet data in binary mode.")
